@@ -341,7 +341,7 @@ def unit_corpus(a):
             cases.append({"sub": "layout", "text": t, "label": "end-of-text-characters", "choices": [5] * 24})
     # a CR LF file of a little over 1 MiB in which a CR sits at every byte offset 32k+31, hence directly in front of every power-of-two block boundary
     big_crlf = "Feature: f\r\n Scenario: ssssssss\r\n" + "".join("  Given %022d\r\n" % i for i in range((1 << 20) // 32 + 200))
-    cases.append({"sub": "layout", "text": big_crlf, "label": "crlf-file-over-1MiB", "choices": [0] * 24})
+    cases.append({"sub": "layout", "text": big_crlf, "label": "crlf-file-over-1MiB", "choices": [0] * 24, "budget_s": 150})
     from .magnitude import transition_documents
     for i, (n, t) in enumerate(transition_documents(accepted_only=False)):
         cases.append({"sub": "layout", "text": t, "label": "transition:" + n, "choices": [2] * 24})
